@@ -332,6 +332,10 @@ class BackupNode(Entity):
         self._replications_applied = 0
         self._backup_reads = 0
         self._last_applied_seq = 0
+        # Highest primary sequence number applied per key. Replicate messages for one
+        # key can overtake each other on the network; a stale one must not overwrite
+        # the newer value.
+        self._applied_seq_by_key: dict[str, int] = {}
 
     def downstream_entities(self) -> list[Entity]:
         return [self._primary]
@@ -375,11 +379,15 @@ class BackupNode(Entity):
         seq = metadata.get("seq", 0)
         ack_future: SimFuture | None = metadata.get("ack_future")
 
-        # Apply locally
-        yield from self._store.put(key, value)
-
-        self._replications_applied += 1
-        self._last_applied_seq = seq
+        # Apply locally after the store's write latency. The staleness decision is taken
+        # at apply time, so overlapping replications of one key resolve by sequence
+        # number, not by arrival order.
+        yield self._store.write_latency
+        if seq > self._applied_seq_by_key.get(key, 0):
+            self._applied_seq_by_key[key] = seq
+            self._store.put_sync(key, value)
+            self._replications_applied += 1
+        self._last_applied_seq = max(self._last_applied_seq, seq)
 
         # Resolve ack future if present (for SEMI_SYNC/SYNC)
         if ack_future is not None:
